@@ -75,7 +75,7 @@ type RPlan struct {
 	// Soak, when set, replaces Ops by a long history generated from this recipe
 	// at execution time (the plan stays small and shrinks by its numbers).
 	Soak *RSoak `json:"soak,omitempty"`
-	Ops     []ROp    `json:"ops"`
+	Ops  []ROp  `json:"ops"`
 	// Fired counts, per stream-fault kind, how often the generator applied it
 	// while producing Ops (evidence only; stale after shrinking).
 	Fired []int `json:"fired,omitempty" shrink:"-"`
@@ -107,10 +107,29 @@ type RSoak struct {
 	// open, then (Close says) Close or a sleep past the timeout and one Maintain:
 	// the flush that follows exactly N deliveries.
 	Tail bool `json:"tail,omitempty"`
+	// Reorder: per cent of events whose first record arrives before the
+	// previous event's (neighbours swapped on the way, as between two CPUs).
+	Reorder int `json:"reorder_pct,omitempty"`
 }
 
 // counts at which periodic work tends to happen
 var soakThresholds = []int{256, 512, 1000, 1024, 2048, 4096, 8192, 10000, 16384, 32768, 65536}
+
+// appendSoakEvent appends the records of one ordinary event.
+func appendSoakEvent(ops []ROp, r *core.Rng, k *RSoak, push int, off uint32) []ROp {
+	if r.Chance(k.Multi, 100) {
+		ops = append(ops, ROp{K: push, Off: off, Typ: tSYSCALL}, ROp{K: push, Off: off, Typ: tPATH})
+		if !r.Chance(k.Open, 100) {
+			term := uint16(tPROCTITLE)
+			if k.EOE {
+				term = tEOE
+			}
+			ops = append(ops, ROp{K: push, Off: off, Typ: term})
+		}
+		return ops
+	}
+	return append(ops, ROp{K: push, Off: off, Typ: core.Pick[uint16](r, tUSERAUTH, tLOGIN, tANOM, 1112)})
+}
 
 func expandSoak(p *RPlan) []ROp {
 	k := p.Soak
@@ -160,7 +179,24 @@ func expandSoak(p *RPlan) []ROp {
 		}
 		return ops
 	}
+	var prevStart int // index in ops where the previous event's records begin
 	for e := 0; e < k.N && off < spanMax-8; e++ {
+		start := len(ops)
+		if e > 0 && k.Reorder > 0 && r.Chance(k.Reorder, 100) {
+			// this event overtakes the previous one: its records are put in front of it
+			defer0 := append([]ROp(nil), ops[prevStart:]...)
+			ops = ops[:prevStart]
+			start = len(ops)
+			ops = appendSoakEvent(ops, r, k, push, off)
+			ops = append(ops, defer0...)
+			prevStart = start
+			off++
+			if r.Chance(k.Gap, 100) {
+				off += uint32(r.Range(1, 3))
+			}
+			continue
+		}
+		prevStart = start
 		if r.Chance(k.Multi, 100) {
 			n := r.Range(1, 4)
 			ops = append(ops, ROp{K: push, Off: off, Typ: tSYSCALL})
@@ -216,7 +252,7 @@ func (p *RPlan) Valid() bool {
 	if p.Soak != nil {
 		k := p.Soak
 		if k.N < 1 || k.N > 70000 || k.Gap < 0 || k.Gap > 100 || k.Open < 0 || k.Open > 100 || k.Multi < 0 || k.Multi > 100 || k.Maint < 0 || k.Sleep < 0 ||
-			len(p.Ops) != 0 || p.WideB != 0 || len(p.Scatter) != 0 || p.Max < 0 || p.Max > 5000 || k.Backlog < 0 || k.Backlog > 5000 || k.Huge < 0 || k.Huge > 70000 {
+			len(p.Ops) != 0 || p.WideB != 0 || len(p.Scatter) != 0 || p.Max < 0 || p.Max > 5000 || k.Backlog < 0 || k.Backlog > 5000 || k.Huge < 0 || k.Huge > 70000 || k.Reorder < 0 || k.Reorder > 100 {
 			return false
 		}
 		return true
@@ -295,7 +331,11 @@ type genEvent struct {
 // a property cares about: 0 neutral, 3 = loss accounting (C03), 10 = buffer /
 // eviction (C10), 19 = time (C19), 2 = disorder (C02).
 func GenRPlan(r *core.Rng, tilt int) *RPlan {
-	if r.Chance(1, 1000) {
+	soakOdds := 1000
+	if tilt == 2 {
+		soakOdds = 500 // (ordering at scale: the cheapest engine can afford twice as many)
+	}
+	if r.Chance(1, soakOdds) {
 		// a long history (what accumulates: counters, slices that are cut from the front, periodic work)
 		p := &RPlan{Max: core.Pick(r, 0, 1, 2, 5, 8, 32), Timeout: core.Pick[int64](r, 2e9, 2e9, 3600e9, 1e6, math.MaxInt64), Base: core.Pick(r, uint32(0), 1, 1<<32-1000, r.U32())}
 		p.Soak = &RSoak{N: core.Pick(r, 300, 600, 1100, 2100, 4200, 9000, 17000, 33000, 66000, 70000), Seed: r.U64(), Gap: core.Pick(r, 0, 0, 1, 5), Open: core.Pick(r, 0, 1, 5),
@@ -330,6 +370,9 @@ func GenRPlan(r *core.Rng, tilt int) *RPlan {
 				p.Soak.N = 20000
 			}
 			p.Timeout = core.Pick[int64](r, 2e9, 2e9, 3600e9, math.MaxInt64)
+		}
+		if p.Soak.Backlog == 0 && !p.Soak.Tail && r.Chance(1, 2) {
+			p.Soak.Reorder = core.Pick(r, 2, 10, 30)
 		}
 		p.Fired = make([]int, nRFaults)
 		return p
